@@ -51,12 +51,16 @@ import (
 
 type bigSpec struct {
 	codec, cfg, inenc, at, edit, wrap string
+	around                            string // round 3: "" | "ffs2" = a small FFSv2 volume in front of and behind the FFSv3 volume
 	seed                              int64
 	k                                 int
 }
 
 func parseBigSpec(a map[string]string) bigSpec {
-	sp := bigSpec{codec: a["codec"], cfg: a["cfg"], inenc: a["inenc"], at: a["at"], edit: a["edit"], wrap: a["wrap"]}
+	sp := bigSpec{codec: a["codec"], cfg: a["cfg"], inenc: a["inenc"], at: a["at"], edit: a["edit"], wrap: a["wrap"], around: a["around"]}
+	if sp.around != "" && sp.around != "ffs2" {
+		panic("c06: bigsec: around " + sp.around)
+	}
 	sp.seed, _ = strconv.ParseInt(a["seed"], 10, 64)
 	sp.k, _ = strconv.Atoi(a["k"])
 	switch sp.codec {
@@ -261,7 +265,18 @@ func buildBigSec(sp bigSpec) (x []byte, ops []ue.Op, exp0, exp1, note string) {
 	}
 	im.top = plainFV([]*hu.File{rawFile(0xC5, 77), container, rawFile(0xC6, 100)}, free, 4096)
 	im.top.V3 = true
-	im.b.Img = &hu.Img{Bios: &hu.Bios{Items: []hu.Item{{FV: im.top}}}}
+	items := []hu.Item{{FV: im.top}}
+	if sp.around == "ffs2" {
+		// round 3 (seeded defect c06-4): the volume with the 16 MiB objects is FFSv3 already; the request "make the
+		// enclosing volume FFSv3" that those objects raise ends there.  Unrelated FFSv2 volumes in front of it and
+		// behind it (a compressed driver and a raw file each) are part of the content that a save keeps.
+		small := func(n byte) *hu.FV {
+			drv := sectFile(n, 7, im.b.comp("LZMA", sp.cfg, []*hu.Sec{pe32Sec(n, 300), {Kind: "su", Name: []rune("Small")}}))
+			return plainFV([]*hu.File{drv, rawFile(n+1, 60)}, 2048, 4096)
+		}
+		items = []hu.Item{{FV: small(0xD0)}, {Pad: rep(0xFF, 64), FV: im.top}, {FV: small(0xD2)}}
+	}
+	im.b.Img = &hu.Img{Bios: &hu.Bios{Items: items}}
 	x = im.b.Img.Ser()
 	exp0 = im.b.node().text()
 	exp1 = exp0
@@ -314,7 +329,7 @@ func savedCompForm(f fuefi.Firmware) string {
 
 func bigSecCase(codec, cfg, inenc, at string, k int, seed int64, kv ...string) core.Case {
 	args := map[string]string{"codec": codec, "cfg": cfg, "inenc": inenc, "at": at, "k": strconv.Itoa(k), "seed": strconv.FormatInt(seed, 10),
-		"edit": "-", "wrap": ""}
+		"edit": "-", "wrap": "", "around": "ffs2"}
 	for i := 0; i+1 < len(kv); i += 2 {
 		args[kv[i]] = kv[i+1]
 	}
